@@ -47,7 +47,29 @@ func c17prop(ev *evid.Rec) func(rt *rapid.T) {
 		var history []string
 		nt := false
 		inWorld(rt, hlsim.Options{Agreement: "a", Accounts: accounts}, func(rt *rapid.T, w *hlsim.World) {
-			bans := map[string]banEntry{}
+			bans := map[string]banEntry{} // what the running server must enforce
+			// what the ban file holds.  The two differ only while the file cannot be written (blocked): a ban that was
+			// acknowledged then must still be enforced by the running server; the next restart or reload goes by the file.
+			fileBans := map[string]banEntry{}
+			blocked := false
+			unsure := map[string]bool{} // addresses about which nothing is claimed any more (a ban request was refused while blocked)
+			synced := func() {
+				fileBans = map[string]banEntry{}
+				for k, v := range bans {
+					fileBans[k] = v
+				}
+			}
+			inSync := func() bool { // a reload changes nothing the running server enforces
+				if len(bans) != len(fileBans) {
+					return false
+				}
+				for k, v := range bans {
+					if f, ok := fileBans[k]; !ok || f != v {
+						return false
+					}
+				}
+				return true
+			}
 			var users []*c17user
 			port := 5000
 			var admin *hlsim.Conn
@@ -163,8 +185,11 @@ func c17prop(ev *evid.Rec) func(rt *rapid.T) {
 					fail("%s: ban file does not load: %v", ctx, err)
 				}
 				for _, ip := range c17Addrs {
+					if unsure[ip] {
+						continue
+					}
 					isB, until := fresh.IsBanned(ip)
-					m, ok := bans[ip]
+					m, ok := fileBans[ip]
 					if isB != ok {
 						fail("%s: ban file lists %s: %v, model: %v", ctx, ip, isB, ok)
 					}
@@ -181,6 +206,9 @@ func c17prop(ev *evid.Rec) func(rt *rapid.T) {
 					ip := rapid.SampledFrom(c17Addrs).Draw(rt, "ip")
 					acc := fmt.Sprintf("u%d", rapid.IntRange(0, 4).Draw(rt, "acct"))
 					flow := rapid.SampledFrom([]string{"123", "123", "15", "15-nameless"}).Draw(rt, "flow")
+					if unsure[ip] {
+						rt.Skip()
+					}
 					rec("connect from %s as %s (%s)", ip, acc, flow)
 					attempt(ip, acc, flow)
 				},
@@ -213,7 +241,7 @@ func c17prop(ev *evid.Rec) func(rt *rapid.T) {
 						checkFile("after a refused kick of a protected user")
 						return
 					}
-					if opt != 0 && rapid.IntRange(0, 2).Draw(rt, "reloadsMeanwhile") == 0 {
+					if opt != 0 && rapid.IntRange(0, 2).Draw(rt, "reloadsMeanwhile") == 0 && !blocked && inSync() {
 						// the operator's reload request (SIGHUP) arrives while the ban is being recorded
 						rec("  (ban list reloaded from four goroutines meanwhile)")
 						rid := admin.NewID()
@@ -239,7 +267,21 @@ func c17prop(ev *evid.Rec) func(rt *rapid.T) {
 						if !ok {
 							fail("disconnect request refused")
 						}
-					} else if !okReply(admin.Request(hlref.TranDisconnectUser, fs...)) {
+					} else if r := admin.Request(hlref.TranDisconnectUser, fs...); !okReply(r) {
+						if blocked && opt != 0 && r != nil {
+							// a server may refuse a ban it cannot record: then nothing is claimed about this address any more
+							rec("  (refused while the ban file cannot be written)")
+							unsure[u.addr] = true
+							settle(1*time.Second + time.Millisecond)
+							if u.conn.EOF() {
+								users = append(users[:i], users[i+1:]...)
+							}
+							admin.TakeInbox()
+							for _, o := range users {
+								o.conn.TakeInbox()
+							}
+							return
+						}
 						fail("disconnect request refused")
 					}
 					switch opt {
@@ -247,6 +289,12 @@ func c17prop(ev *evid.Rec) func(rt *rapid.T) {
 						bans[u.addr] = banEntry{expiry: now.Add(30 * time.Minute)}
 					case 2:
 						bans[u.addr] = banEntry{perm: true}
+					}
+					if opt != 0 && !blocked {
+						synced()
+					}
+					if opt != 0 && blocked {
+						nt = true
 					}
 					settle(1*time.Second + time.Millisecond)
 					if !u.conn.EOF() {
@@ -275,7 +323,7 @@ func c17prop(ev *evid.Rec) func(rt *rapid.T) {
 					if opt != 0 {
 						checkFile("after kick")
 						if b, _ := w.Bans.IsBanned(u.addr); !b {
-							fail("the ban of %s was acknowledged and is in the file, but the running server does not enforce it", u.addr)
+							fail("the ban of %s was acknowledged (ban file writable: %v), but the running server does not enforce it", u.addr, !blocked)
 						}
 					}
 				},
@@ -289,14 +337,14 @@ func c17prop(ev *evid.Rec) func(rt *rapid.T) {
 						}
 					}
 					var free []string
-					if len(cand) == 0 {
+					if len(cand) == 0 || blocked {
 						rt.Skip()
 					}
 					i := cand[rapid.IntRange(0, len(cand)-1).Draw(rt, "who")]
 					u := users[i]
 					opt := rapid.IntRange(0, 2).Draw(rt, "option")
 					for _, ip := range c17Addrs {
-						if !banned(ip) && (opt == 0 || ip != u.addr) {
+						if !banned(ip) && !unsure[ip] && (opt == 0 || ip != u.addr) {
 							free = append(free, ip)
 						}
 					}
@@ -318,6 +366,9 @@ func c17prop(ev *evid.Rec) func(rt *rapid.T) {
 						bans[u.addr] = banEntry{expiry: now.Add(30 * time.Minute)}
 					case 2:
 						bans[u.addr] = banEntry{perm: true}
+					}
+					if opt != 0 {
+						synced()
 					}
 					u.conn.Close()
 					settle(100 * time.Millisecond)
@@ -351,6 +402,9 @@ func c17prop(ev *evid.Rec) func(rt *rapid.T) {
 					ip := rapid.SampledFrom(c17Addrs).Draw(rt, "ip")
 					d := rapid.SampledFrom([]time.Duration{-time.Hour, -time.Second, -1, 0, 1, time.Second, 3 * time.Second, 30 * time.Minute}).Draw(rt, "delta")
 					perm := rapid.IntRange(0, 4).Draw(rt, "perm") == 0
+					if blocked || unsure[ip] {
+						rt.Skip()
+					}
 					rec("ban-list add %s delta=%s perm=%v", ip, d, perm)
 					if perm {
 						if err := w.Srv.BanList.Add(ip, nil); err != nil {
@@ -364,14 +418,17 @@ func c17prop(ev *evid.Rec) func(rt *rapid.T) {
 						}
 						bans[ip] = banEntry{expiry: t}
 					}
+					synced()
 					checkFile("after ban-list add")
 				},
 				"operatorUnban": func(rt *rapid.T) {
 					// the operator removes an entry from the ban file by hand and has the server reload it: the address is
 					// no longer banned (what the server held in memory before does not matter any more)
 					var banned []string
-					for ip := range bans {
-						banned = append(banned, ip)
+					for ip := range fileBans {
+						if !unsure[ip] {
+							banned = append(banned, ip)
+						}
 					}
 					sort.Strings(banned)
 					if len(banned) == 0 {
@@ -394,9 +451,24 @@ func c17prop(ev *evid.Rec) func(rt *rapid.T) {
 					if err := w.Bans.Load(); err != nil {
 						fail("reload of the ban file: %v", err)
 					}
-					delete(bans, ip)
+					delete(fileBans, ip)
+					bans = map[string]banEntry{} // the reload goes by the file
+					for k, v := range fileBans {
+						bans[k] = v
+					}
 					checkFile("after the operator's edit")
 					nt = true
+				},
+				"blockBanFile": func(rt *rapid.T) {
+					// the ban file cannot be rewritten for a while (its temporary name is taken by a folder)
+					tmp := filepath.Join(w.Cfg, "Banlist.yaml.tmp")
+					if blocked {
+						must(os.RemoveAll(tmp))
+					} else {
+						must(os.MkdirAll(filepath.Join(tmp, "in the way"), 0o755))
+					}
+					blocked = !blocked
+					rec("ban file writable: %v", !blocked)
 				},
 				"restart": func(rt *rapid.T) {
 					rec("restart")
@@ -404,6 +476,10 @@ func c17prop(ev *evid.Rec) func(rt *rapid.T) {
 						fail("restart: %v", err)
 					}
 					users = nil
+					bans = map[string]banEntry{} // the restart goes by the file
+					for k, v := range fileBans {
+						bans[k] = v
+					}
 					loginAdmin()
 					if len(bans) > 0 {
 						nt = true
